@@ -16,7 +16,7 @@ import (
 // holder's PrimaryInfo as the key's value. Time is the bubble clock. Its own
 // record (who holds which session until when) is the oracle's truth.
 type SimLease struct {
-	open map[int]int // lease objects handed to a node and not closed by it
+	open      map[int]int // lease objects handed to a node and not closed by it
 	r         *Run
 	mu        sync.Mutex
 	TTL       time.Duration
@@ -33,10 +33,18 @@ type SimLease struct {
 	Log []LeaseEvent
 
 	// fault knobs, consulted at call time (per node)
-	Down       map[int]bool // node cannot reach the service (calls error)
-	AcquireErr int          // percent chance that Acquire errors
-	RenewErr   int          // percent chance that Renew errors
-	LostReply  int          // percent chance that an acquire takes effect but the reply is lost
+	Down map[int]bool // node cannot reach the service (calls error)
+	// FailClusterID: the next n times that node acquires the lease, its first
+	// ClusterID call afterwards fails (the service answers the acquire and then
+	// drops a request)
+	FailClusterID map[int]int
+	failNext      map[int]bool
+	// DownAfterClusterIDFail: from that failure on the node cannot reach the
+	// service at all (until the harness clears Down)
+	DownAfterClusterIDFail bool
+	AcquireErr             int // percent chance that Acquire errors
+	RenewErr               int // percent chance that Renew errors
+	LostReply              int // percent chance that an acquire takes effect but the reply is lost
 }
 
 type leaseSession struct {
@@ -58,7 +66,7 @@ type LeaseEvent struct {
 var errLeaseNet = errors.New("simlease: service unreachable")
 
 func NewSimLease(r *Run, ttl, lockDelay time.Duration) *SimLease {
-	return &SimLease{r: r, TTL: ttl, LockDelay: lockDelay, sess: map[string]*leaseSession{}, Down: map[int]bool{}}
+	return &SimLease{r: r, TTL: ttl, LockDelay: lockDelay, sess: map[string]*leaseSession{}, Down: map[int]bool{}, FailClusterID: map[int]int{}, failNext: map[int]bool{}}
 }
 
 // noteOpen counts, per node, the lease objects the node was handed and has not
@@ -217,6 +225,9 @@ func (l *SimLeaser) Acquire(ctx context.Context) (litefs.Lease, error) {
 	}
 	s.logf(l.node, "acquire", ss.id, "ok")
 	s.noteOpen(l.node, 1)
+	if s.FailClusterID[l.node] > 0 {
+		s.failNext[l.node] = true
+	}
 	return &SimLeaseObj{l: l, id: ss.id, renewedAt: now, handoffCh: make(chan uint64)}, nil
 }
 
@@ -271,6 +282,16 @@ func (l *SimLeaser) ClusterID(ctx context.Context) (string, error) {
 	defer s.mu.Unlock()
 	if l.unreachable() {
 		return "", errLeaseNet
+	}
+	if s.failNext[l.node] {
+		s.failNext[l.node] = false
+		s.FailClusterID[l.node]--
+		s.r.Count("fault.lease_clusterid_error")
+		if s.DownAfterClusterIDFail {
+			s.Down[l.node] = true
+		}
+		s.logf(l.node, "cluster-id", "", "error")
+		return "", fmt.Errorf("simlease: injected cluster-id error")
 	}
 	return s.clusterID, nil
 }
